@@ -138,6 +138,15 @@ static int poll_rr;
  * decisions with probability 1/3, so that threads drift apart around that point (e.g. GVT phase changes) */
 static unsigned skew_point = 0xffffffffU, skew_len = 0;
 static unsigned parked[VS_MAX];
+/* keep one logical thread (1 = the first one created) off the processor for the first `len' decisions */
+static int park_thr = -1;
+static unsigned park_point, park_len;
+void vs_park(int logical, unsigned point, unsigned len)
+{
+	park_thr = logical;
+	park_point = point;
+	park_len = len;
+}
 void vs_set_skew(unsigned point, unsigned len)
 {
 	skew_point = point;
@@ -219,6 +228,15 @@ void vs_yield(unsigned point, unsigned long site)
 		return;
 
 	int do_switch;
+	if(me == park_thr && point == park_point) {
+		/* one-shot: the designated thread is kept off the processor from its first arrival at this point */
+		park_thr = -1;
+		parked[me] = park_len;
+		int nx = pick_next(me, 1);
+		if(nx >= 0 && nx != me)
+			hand_over(me, nx);
+		return;
+	}
 	if(skew_len && point == skew_point && (vs_rand() % 3) == 0) {
 		parked[me] = 1 + (unsigned)(vs_rand() % skew_len);
 		int nx = pick_next(me, 1);
